@@ -239,6 +239,42 @@ def eq_hash_rule(repo: Repo, m: ModuleInfo, res: CheckResult) -> None:
             res.add(Finding("C15", "EQHASH.hash-not-subset-of-eq", m.rel, f"{ci.name}.__hash__", ", ".join(sorted(extra)),
                             f"__hash__ of {ci.name} reads {sorted(extra)} which __eq__ does not compare: equal normal forms "
                             "may hash differently (cache misses, duplicate union members)", hs[1].lineno))
+        # a hash precomputed in a constructor must be computed from what __eq__ compares -- the STORED (ordered, typed)
+        # arguments -- not from the raw parameter the constructor transforms before storing it
+        for mname, fn in ci.methods.items():
+            for st in ast.walk(fn):
+                if not (isinstance(st, ast.Assign) and any(norm(t) == "self._hash" for t in st.targets)):
+                    continue
+                params = {a.arg for a in fn.args.args + fn.args.kwonlyargs} - {"self"}
+                raw = {x.id for x in ast.walk(st.value) if isinstance(x, ast.Name) and x.id in params}
+                for p_ in sorted(raw):
+                    transformed = None
+                    for c in ast.walk(fn):
+                        if isinstance(c, ast.Call) and c is not st.value and not any(c is x for x in ast.walk(st.value)):
+                            inner = [a for a in list(c.args) + [k.value for k in c.keywords]
+                                     if isinstance(a, ast.Call) and any(isinstance(x, ast.Name) and x.id == p_ for x in ast.walk(a))]
+                            if inner and (norm(c.func).endswith("__init__") or norm(c.func).startswith("super()")):
+                                transformed = norm(inner[0])
+                    for a2 in ast.walk(fn):
+                        if isinstance(a2, ast.Assign) and a2 is not st and isinstance(a2.value, ast.Call) \
+                                and any(isinstance(t, ast.Attribute) and norm(t.value) == "self" for t in a2.targets) \
+                                and any(isinstance(x, ast.Name) and x.id == p_ for x in ast.walk(a2.value)):
+                            transformed = norm(a2.value)
+                    if transformed is not None:
+                        res.add(Finding("C15", "EQHASH.hash-from-untransformed-input", m.rel, f"{ci.name}.{mname}", norm(st)[:100],
+                                        f"`{norm(st)[:80]}` computes the hash from the raw parameter `{p_}` while the object stores and "
+                                        f"compares `{transformed[:60]}`: two equal normal forms built from differently written hints "
+                                        "(Union[int, str] / Union[str, int] inside list / List) hash differently -- duplicate union members, "
+                                        "cache misses", st.lineno))
+        # zip() stops at the shorter operand: an __eq__ that compares argument tuples pairwise must compare their lengths too
+        for z in ast.walk(eq[1]):
+            if isinstance(z, ast.Call) and norm(z.func) == "zip" and not any(k.arg == "strict" for k in z.keywords):
+                has_len = any(isinstance(c, ast.Compare) and "len(" in norm(c) for c in ast.walk(eq[1]))
+                if not has_len:
+                    res.add(Finding("C15", "EQHASH.eq-zip-truncates", m.rel, f"{eq[0].name}.__eq__", norm(z)[:100],
+                                    f"`{norm(z)[:60]}` pairs the arguments up to the shorter tuple and nothing compares the lengths: a normal "
+                                    "form equals every one whose (sorted) arguments it is a prefix of -- Literal['a'] == Literal['a', 'b']",
+                                    z.lineno))
         # __eq__ answers for its own family: first isinstance test names a class of the MRO (or type(self))
         tests = [c for c in ast.walk(eq[1]) if isinstance(c, ast.Call) and norm(c.func) == "isinstance" and len(c.args) == 2]
         if tests:
@@ -389,13 +425,18 @@ def implicit_params_rule(repo: Repo, res: CheckResult) -> None:
     want = {"list": 1, "set": 1, "frozenset": 1, "dict": 2, "collections.abc.Iterable": 1, "collections.abc.Reversible": 1,
             "collections.abc.Collection": 1, "collections.abc.Sequence": 1, "collections.abc.MutableSequence": 1,
             "collections.abc.Set": 1, "collections.abc.MutableSet": 1, "collections.abc.Mapping": 2,
-            "collections.abc.MutableMapping": 2}
+            "collections.abc.MutableMapping": 2,
+            # every generic ABC of collections.abc (arity from the typing documentation, stable across 3.9 - 3.13)
+            "collections.abc.Iterator": 1, "collections.abc.Container": 1, "collections.abc.KeysView": 1,
+            "collections.abc.ValuesView": 1, "collections.abc.ItemsView": 2, "collections.abc.MappingView": 1,
+            "collections.abc.Awaitable": 1, "collections.abc.Coroutine": 3, "collections.abc.AsyncIterable": 1,
+            "collections.abc.AsyncIterator": 1, "collections.abc.AsyncGenerator": 2, "collections.abc.Generator": 3}
     for k, a in want.items():
         n += 1
         res.evaluated(f"implicit:builtin-table:{k}", True)
         if arity.get(k) != a:
             res.add(Finding("C15", "IMPLICIT.builtin-table", cm.rel, "BUILTIN_ORIGIN_TO_TYPEVARS", f"{k}: {arity.get(k)} type variables",
                             f"the bare generic `{k}` must receive {a} implicit parameter(s) (Any): with "
-                            f"{arity.get(k, 'no entry')} in the table `{k.split('.')[-1]}` and `{k.split('.')[-1]}[Any{', Any' if a == 2 else ''}]` "
+                            f"{arity.get(k, 'no entry')} in the table `{k.split('.')[-1]}` and `{k.split('.')[-1]}[{', '.join(['Any'] * a)}]` "
                             "normalise to unequal forms", tbl.lineno))
     res.count("IMPLICIT.obligations", n, 4)
